@@ -36,6 +36,26 @@ struct SNode {
     /// payload content selector; nodes with equal stamp, size, lead and links have identical bytes
     stamp: u32,
     links: Vec<SLink>,
+    /// explicit payload (dedup-adversarial family); `size` equals its length
+    #[serde(default, skip_serializing_if = "Option::is_none")]
+    raw: Option<Vec<u8>>,
+}
+
+impl SNode {
+    fn payload(&self) -> Vec<u8> {
+        match &self.raw {
+            Some(r) => r.clone(),
+            None => fill(self.stamp, self.size as usize),
+        }
+    }
+    /// two nodes have equal payloads iff their content ids are equal (LCG payloads of >= 8 bytes differ iff the stamps differ)
+    fn content_id(&self) -> (u64, Vec<u8>) {
+        if self.raw.is_some() || self.size < 8 {
+            (0, self.payload())
+        } else {
+            (self.stamp as u64 | 1 << 63, vec![])
+        }
+    }
 }
 
 #[derive(Clone, Debug, Serialize, Deserialize)]
@@ -66,6 +86,7 @@ impl Spec {
         !self.nodes.is_empty()
             && self.nodes.iter().enumerate().all(|(i, n)| {
                 n.lead <= n.size
+                    && n.raw.as_ref().map(|r| r.len() == n.size as usize).unwrap_or(true)
                     && n.size <= 1 << 25
                     && n.links.iter().all(|l| (l.to as usize) > i && (l.to as usize) < self.nodes.len() && (2..=4).contains(&l.w) && l.adj as usize <= self.node_len(i))
             })
@@ -90,11 +111,11 @@ impl Spec {
             return (0..n as u32).collect();
         }
         let mut class = vec![0u32; n];
-        let mut keys: BTreeMap<(u32, u64, u32, Vec<(u32, u8)>), u32> = BTreeMap::new();
+        let mut keys: BTreeMap<(u32, (u64, Vec<u8>), u32, Vec<(u32, u8)>), u32> = BTreeMap::new();
         for i in (0..n).rev() {
             let nd = &self.nodes[i];
             // payloads of >= 8 bytes differ iff the stamps differ (see `fill`); shorter ones are compared by value
-            let id = if nd.size >= 8 { nd.stamp as u64 | 1 << 63 } else { fill(nd.stamp, nd.size as usize).iter().fold(0u64, |a, b| (a << 8) | *b as u64) };
+            let id = nd.content_id();
             let links: Vec<(u32, u8)> = nd.links.iter().map(|l| (class[l.to as usize], l.w)).collect();
             let key = (nd.size, id, if links.is_empty() { 0 } else { nd.lead }, links);
             let next = keys.len() as u32;
@@ -187,7 +208,7 @@ fn materialise(spec: &Spec) -> Vec<Mat> {
         .iter()
         .enumerate()
         .map(|(i, n)| {
-            let mut p = fill(n.stamp, n.size as usize);
+            let mut p = n.payload();
             let post = p.split_off(n.lead as usize);
             Mat { pre: p, post, len: spec.node_len(i) }
         })
@@ -515,7 +536,7 @@ impl Block {
         let mut nodes: Vec<SNode> = (0..self.n)
             .map(|i| {
                 let s = self.sizes[take(self.sizes.len() as u64) as usize];
-                SNode { size: s, lead: s, stamp: i as u32, links: vec![] }
+                SNode { size: s, lead: s, stamp: i as u32, links: vec![], raw: None }
             })
             .collect();
         for j in 1..self.n {
@@ -571,7 +592,7 @@ fn decode_blocks(blocks: &[Block], mut idx: u64) -> Spec {
 /// hand-written shapes around the known finding (the first one is the reproduction from DESIGN.md C05-F)
 fn known_shapes() -> Vec<Spec> {
     let mk = |sizes: &[u32], links: &[(u32, u32, u8)]| {
-        let mut nodes: Vec<SNode> = sizes.iter().enumerate().map(|(i, s)| SNode { size: *s, lead: *s, stamp: i as u32, links: vec![] }).collect();
+        let mut nodes: Vec<SNode> = sizes.iter().enumerate().map(|(i, s)| SNode { size: *s, lead: *s, stamp: i as u32, links: vec![], raw: None }).collect();
         for (a, b, w) in links {
             nodes[*a as usize].links.push(SLink { to: *b, w: *w, adj: 0 });
         }
@@ -592,7 +613,7 @@ fn known_shapes() -> Vec<Spec> {
 fn boundary24_shape(idx: u64) -> Spec {
     let delta = (idx % 5) as i64 - 2;
     let shape = idx / 5;
-    let node = |i: u32, size: u32, links: Vec<(u32, u8)>| SNode { size, lead: size, stamp: i, links: links.into_iter().map(|(to, w)| SLink { to, w, adj: 0 }).collect() };
+    let node = |i: u32, size: u32, links: Vec<(u32, u8)>| SNode { size, lead: size, stamp: i, links: links.into_iter().map(|(to, w)| SLink { to, w, adj: 0 }).collect(), raw: None };
     let limit = (1i64 << 24) - 1 + delta;
     let nodes = match shape {
         // root -> A (24), root -> B (24): B's offset behind A is the limit
@@ -793,7 +814,7 @@ fn finish(raw: Vec<RawNode>, mode: Mode) -> Spec {
     let mut nodes: Vec<SNode> = raw
         .iter()
         .enumerate()
-        .map(|(i, r)| SNode { size: r.size, lead: ((r.lead as u64 * (r.size as u64 + 1)) >> 16) as u32, stamp: i as u32, links: vec![] })
+        .map(|(i, r)| SNode { size: r.size, lead: ((r.lead as u64 * (r.size as u64 + 1)) >> 16) as u32, stamp: i as u32, links: vec![], raw: None })
         .collect();
     let mut raw_adj: Vec<Vec<u16>> = vec![vec![]; n];
     let mut would_mix = false;
@@ -823,7 +844,7 @@ fn finish(raw: Vec<RawNode>, mode: Mode) -> Spec {
             if q > 0 && q < j && nodes[q].links.iter().all(|l| l.to as usize > j) {
                 let (size, lead, stamp, links) = (nodes[q].size, nodes[q].lead, nodes[q].stamp, nodes[q].links.clone());
                 raw_adj[j] = raw_adj[q].clone();
-                nodes[j] = SNode { size, lead, stamp, links };
+                nodes[j] = SNode { size, lead, stamp, links, raw: None };
             }
         }
     }
@@ -833,10 +854,10 @@ fn finish(raw: Vec<RawNode>, mode: Mode) -> Spec {
         // children; with widths a function of the class these are exactly the nodes the public route merges into one object
         let mut class = vec![0usize; n];
         let mut ctw: Vec<u8> = vec![];
-        let mut keys: BTreeMap<(u32, u64, u32, Vec<usize>), usize> = BTreeMap::new();
+        let mut keys: BTreeMap<(u32, (u64, Vec<u8>), u32, Vec<usize>), usize> = BTreeMap::new();
         for i in (0..n).rev() {
             let nd = &nodes[i];
-            let id = if nd.size >= 8 { nd.stamp as u64 | 1 << 63 } else { fill(nd.stamp, nd.size as usize).iter().fold(0u64, |a, b| (a << 8) | *b as u64) };
+            let id = nd.content_id();
             let links: Vec<usize> = nd.links.iter().map(|l| class[l.to as usize]).collect();
             let key = (nd.size, id, if links.is_empty() { 0 } else { nd.lead }, links);
             let next = keys.len();
@@ -907,6 +928,80 @@ fn dag_strategy(mode: Mode) -> impl Strategy<Value = Spec> {
     .prop_map(move |raw| finish(raw, mode))
 }
 
+/// Dedup-adversarial graphs (public route's object store): groups of nodes whose bytes BEFORE offset resolution are
+/// identical (the writer's placeholder for an offset field is 0xFF bytes) and whose links have the same targets, but
+/// whose link fields sit at different positions or have different widths; plain twins; short payloads over a tiny
+/// alphabet. Every such node is a distinct object, and each link to it has to land on a copy of exactly that node.
+fn adversarial_strategy() -> impl Strategy<Value = Spec> {
+    let byte = prop_oneof![5 => Just(0xFFu8), 2 => Just(0u8), 1 => Just(1u8), 1 => Just(0x80u8)];
+    // (bytes before the 0xFF window, bytes after it, chosen placements, target selector, second link?)
+    let group = (
+        proptest::collection::vec(byte.clone(), 0..4),
+        proptest::collection::vec(byte.clone(), 0..4),
+        proptest::collection::vec(0usize..9, 2..6),
+        any::<u16>(),
+        proptest::bool::weighted(0.25),
+    );
+    let leaf = prop_oneof![2 => proptest::collection::vec(byte.clone(), 0..5).prop_map(Some), 1 => Just(None)];
+    (proptest::collection::vec(byte, 0..5), proptest::collection::vec(group, 1..4), proptest::collection::vec(leaf, 1..4), any::<bool>(), 0u8..3)
+        .prop_map(|(root_payload, groups, leaves, second_layer, hook_order)| {
+            // placements of a link field inside a window of four 0xFF bytes: (offset in window, width)
+            const PLACE: [(usize, u8); 9] = [(0, 2), (1, 2), (2, 2), (0, 3), (1, 3), (0, 4), (0, 2), (2, 2), (1, 3)];
+            // node order: root, [second layer], variants, leaves
+            let nvariants: usize = groups.iter().map(|g| g.2.len()).sum();
+            let nsecond = if second_layer { nvariants } else { 0 };
+            let first_variant = 1 + nsecond;
+            let first_leaf = first_variant + nvariants;
+            let mut nodes: Vec<SNode> = vec![];
+            let raw_node = |stamp: usize, bytes: Vec<u8>, lead: usize, links: Vec<SLink>| SNode { size: bytes.len() as u32, lead: lead as u32, stamp: stamp as u32, links, raw: Some(bytes) };
+            // root: 16-bit links to every node of the next layer
+            let next: Vec<u32> = (1..=nvariants as u32).collect();
+            let root_lead = root_payload.len() / 2;
+            nodes.push(raw_node(0, root_payload, root_lead, next.iter().map(|t| SLink { to: *t, w: 2, adj: 0 }).collect()));
+            // second layer: identical two-byte nodes [off16 -> variant k]: distinct only through their targets
+            for k in 0..nsecond {
+                nodes.push(raw_node(1 + k, vec![0xFF, 0xFF], 2 * (k % 2), vec![SLink { to: (first_variant + k) as u32, w: 2, adj: 0 }]));
+            }
+            for (pre, post, places, target, second) in &groups {
+                let leaf = first_leaf + ((*target as usize * leaves.len()) >> 16);
+                let other = first_leaf + (((*target as usize ^ 0x5555) * leaves.len()) >> 16);
+                for pl in places {
+                    let (off, w) = PLACE[*pl];
+                    // pre-resolution bytes: pre ++ FF FF FF FF ++ post; the field takes w of the four FF bytes
+                    let mut payload = pre.clone();
+                    payload.extend(std::iter::repeat(0xFF).take(off));
+                    let lead = payload.len();
+                    payload.extend(std::iter::repeat(0xFF).take(4 - off - w as usize));
+                    payload.extend_from_slice(post);
+                    let mut links = vec![SLink { to: leaf as u32, w, adj: 0 }];
+                    if *second && 4 - off - w as usize >= 2 {
+                        // the bytes right behind the first field become a second 16-bit field
+                        payload.drain(lead..lead + 2);
+                        links.push(SLink { to: other as u32, w: 2, adj: 0 });
+                    }
+                    let stamp = nodes.len();
+                    nodes.push(raw_node(stamp, payload, lead, links));
+                }
+            }
+            for (k, l) in leaves.iter().enumerate() {
+                let stamp = first_leaf + k;
+                nodes.push(match l {
+                    Some(bytes) => raw_node(stamp, bytes.clone(), 0, vec![]),
+                    None => SNode { size: 6, lead: 6, stamp: stamp as u32, links: vec![], raw: None },
+                });
+            }
+            // leaves nobody picked still need a parent
+            let mut spec = Spec { nodes, public: true, hook: true, norm: false, hook_order };
+            let indeg = spec.indegrees();
+            for i in first_leaf..spec.nodes.len() {
+                if indeg[i] == 0 {
+                    spec.nodes[0].links.push(SLink { to: i as u32, w: 2, adj: 0 });
+                }
+            }
+            spec
+        })
+}
+
 // =============================================================================================
 // real tables: big Gpos (PairPos format 1, MarkBasePos) that needs splitting and extension promotion
 
@@ -914,6 +1009,8 @@ mod gp {
     pub use read_fonts::tables::gpos as rg;
     pub use read_fonts::tables::layout::DeviceOrVariationIndex as RDev;
     pub use read_fonts::{FontData, FontRead};
+    pub use write_fonts::tables::gpos::{Class1Record, Class2Record};
+    pub use write_fonts::tables::layout::ClassDef;
     pub use write_fonts::tables::gpos::{AnchorTable, BaseArray, BaseRecord, Gpos, MarkArray, MarkBasePosFormat1, MarkRecord, PairPos, PairSet, PairValueRecord, PositionLookup, SinglePos, ValueRecord};
     pub use write_fonts::tables::layout::{CoverageTable, Feature, FeatureList, FeatureRecord, LangSys, Lookup, LookupFlag, LookupList, Script, ScriptList, ScriptRecord, VariationIndex};
     pub use write_fonts::types::{GlyphId16, Tag};
@@ -925,6 +1022,9 @@ enum LookupSpec {
     Pair { first: u16, second: u16, fmt: u8, subtables: u8, seed: u16 },
     MarkBase { classes: u16, marks_per_class: u16, bases: u16, var: bool, seed: u16 },
     Single { glyphs: u16, seed: u16 },
+    /// one PairPosFormat2 subtable: c1 x c2 classes (per1 / per2 glyphs each), both value records x_advance + x_advance device;
+    /// record i carries VariationIndex devices according to bits of a hash (bit 0: record 1, bit 1: record 2), always different ones
+    PairClass { c1: u16, c2: u16, per1: u8, per2: u8, dense: bool, seed: u16 },
 }
 
 #[derive(Clone, Debug, Serialize, Deserialize)]
@@ -951,6 +1051,14 @@ fn pair_value(fmt: u8, seed: u16, g1: u32, g2: u32) -> PairVal {
         2 => (Some(v), None, Some(v.wrapping_add(7)), None),
         _ => (Some(v), None, None, Some(((v as u32 & 3) << 16) | (v as u32 >> 4 & 15))),
     }
+}
+/// class pair i: (x_advance1, device1, x_advance2, device2); devices as outer << 16 | inner
+type ClassVal = (i16, Option<u32>, i16, Option<u32>);
+fn class_value(seed: u16, dense: bool, i: u32) -> ClassVal {
+    let h = h16(seed, 77, i);
+    let bits = if dense { 1 + (h as u32 >> 3) % 3 } else if (h as u32 >> 3) % 5 == 0 { 1 + (h as u32 >> 7) % 3 } else { 0 };
+    let dev = |which: u32| Some((which + 2 * (i >> 16)) << 16 | (i & 0xFFFF));
+    (h, if bits & 1 != 0 { dev(1) } else { None }, h.wrapping_add(11), if bits & 2 != 0 { dev(2) } else { None })
 }
 fn pair_first_glyph(sub: u32, k: u32) -> u32 {
     1 + sub * 3000 + k * 2
@@ -1025,6 +1133,32 @@ fn build_gpos(c: &GposCase) -> gp::Gpos {
                 );
                 let sub = gp::MarkBasePosFormat1::new(mark_cov, base_cov, marks, base_array);
                 lookups.push(gp::PositionLookup::MarkToBase(gp::Lookup::new(gp::LookupFlag::empty(), vec![sub])));
+            }
+            LookupSpec::PairClass { c1, c2, per1, per2, dense, seed } => {
+                let fmt = gp::rg::ValueFormat::X_ADVANCE | gp::rg::ValueFormat::X_ADVANCE_DEVICE;
+                let cd1: gp::ClassDef = (0..c1 as u32 * per1 as u32).map(|k| (gid(1 + k), (k / per1 as u32) as u16)).collect();
+                let cd2: gp::ClassDef = (0..c2 as u32 * per2 as u32).map(|k| (gid(1 + k), (k / per2 as u32) as u16)).collect();
+                let cov: gp::CoverageTable = (0..c1 as u32 * per1 as u32).map(|k| gid(1 + k)).collect();
+                let vr = |xa: i16, dev: Option<u32>| {
+                    let r = gp::ValueRecord::new().with_explicit_value_format(fmt).with_x_advance(xa);
+                    match dev {
+                        Some(v) => r.with_x_advance_device(gp::VariationIndex::new((v >> 16) as u16, v as u16)),
+                        None => r,
+                    }
+                };
+                let recs = (0..c1 as u32)
+                    .map(|a| {
+                        gp::Class1Record::new(
+                            (0..c2 as u32)
+                                .map(|b| {
+                                    let (x1, d1, x2, d2) = class_value(seed, dense, a * c2 as u32 + b);
+                                    gp::Class2Record::new(vr(x1, d1), vr(x2, d2))
+                                })
+                                .collect(),
+                        )
+                    })
+                    .collect();
+                lookups.push(gp::PositionLookup::Pair(gp::Lookup::new(gp::LookupFlag::empty(), vec![gp::PairPos::format_2(cov, cd1, cd2, recs)])));
             }
             LookupSpec::Single { glyphs, seed } => {
                 let cov: gp::CoverageTable = (0..glyphs as u32).map(|g| gid(5 + g)).collect();
@@ -1214,6 +1348,63 @@ fn test_gpos(c: &GposCase, stats: &Stats) -> CaseResult {
                 }
                 stats.class_n("gpos:attachments_compared", attachments);
             }
+            (LookupSpec::PairClass { c1, c2, per1, per2, dense, seed }, gp::rg::PositionSubtables::Pair(subs)) => {
+                if subs.len() > 1 {
+                    split = true;
+                }
+                let mut first_seen: BTreeSet<u32> = BTreeSet::new();
+                let mut compared = 0u64;
+                for (si, sub) in subs.iter().enumerate() {
+                    let ctx = format!("lookup {li} subtable {si}");
+                    let gp::rg::PairPos::Format2(t) = sub.map_err(|e| rd(e, &ctx))? else {
+                        return Err(gfail("wrong-target", format!("{ctx}: not a PairPosFormat2")));
+                    };
+                    let cov = t.coverage().map_err(|e| rd(e, &format!("{ctx} coverage")))?;
+                    let cd1 = t.class_def1().map_err(|e| rd(e, &format!("{ctx} class def 1")))?;
+                    let cd2 = t.class_def2().map_err(|e| rd(e, &format!("{ctx} class def 2")))?;
+                    let mut matrix: Vec<Vec<ClassVal>> = vec![];
+                    for r1 in t.class1_records().iter() {
+                        let r1 = r1.map_err(|e| rd(e, &format!("{ctx} class1 record")))?;
+                        let mut row = vec![];
+                        for r2 in r1.class2_records().iter() {
+                            let r2 = r2.map_err(|e| rd(e, &format!("{ctx} class2 record")))?;
+                            let (v1, v2) = (r2.value_record1(), r2.value_record2());
+                            let d1 = r_var(v1.x_advance_device(t.offset_data()), &format!("{ctx} value record 1"))?;
+                            let d2 = r_var(v2.x_advance_device(t.offset_data()), &format!("{ctx} value record 2"))?;
+                            match (v1.x_advance(), v2.x_advance()) {
+                                (Some(x1), Some(x2)) => row.push((x1, d1, x2, d2)),
+                                _ => return Err(gfail("value-format", format!("{ctx}: a class2 record lost its x_advance"))),
+                            }
+                        }
+                        matrix.push(row);
+                    }
+                    for g in cov.iter() {
+                        let g1 = g.to_u16() as u32;
+                        if !first_seen.insert(g1) {
+                            return Err(gfail("pair-duplicated", format!("{ctx}: first glyph {g1} is covered by two subtables")));
+                        }
+                        if g1 < 1 || g1 > *c1 as u32 * *per1 as u32 {
+                            return Err(gfail("pairs-differ", format!("{ctx}: first glyph {g1} is not in the input")));
+                        }
+                        let a = (g1 - 1) / *per1 as u32;
+                        let row = matrix.get(cd1.get(g) as usize).ok_or_else(|| gfail("class-range", format!("{ctx}: glyph {g1} has class {} of {}", cd1.get(g), matrix.len())))?;
+                        for b in 0..*c2 as u32 {
+                            // a glyph of input class b (class 0 also holds every unlisted glyph)
+                            let g2 = gp::GlyphId16::new((1 + b * *per2 as u32) as u16);
+                            let got = row.get(cd2.get(g2) as usize).copied();
+                            let want = class_value(*seed, *dense, a * *c2 as u32 + b);
+                            if got != Some(want) {
+                                return Err(gfail("class-pair-differs", format!("{ctx}: first glyph {g1} (class {a}) x second class {b}: got {got:?}, expected {want:?} (x_advance1, device1, x_advance2, device2)")));
+                            }
+                            compared += 1;
+                        }
+                    }
+                }
+                if first_seen.len() != *c1 as usize * *per1 as usize {
+                    return Err(gfail("pairs-differ", format!("lookup {li}: {} first glyphs reachable, {} in the input", first_seen.len(), *c1 as usize * *per1 as usize)));
+                }
+                stats.class_n("gpos:class_pairs_compared", compared);
+            }
             (LookupSpec::Single { glyphs, seed }, gp::rg::PositionSubtables::Single(subs)) => {
                 let mut got = vec![];
                 for sub in subs.iter() {
@@ -1257,7 +1448,9 @@ fn gpos_strategy() -> impl Strategy<Value = GposCase> {
     let mark = (1u16..48, 1u16..7, prop_oneof![2 => 5u16..120, 1 => 120u16..420], any::<bool>(), any::<u16>())
         .prop_map(|(classes, marks_per_class, bases, var, seed)| LookupSpec::MarkBase { classes, marks_per_class, bases, var, seed });
     let single = (1u16..300, any::<u16>()).prop_map(|(glyphs, seed)| LookupSpec::Single { glyphs, seed });
-    (proptest::collection::vec(prop_oneof![5 => pair, 3 => mark, 2 => single], 1..6), 1u8..4).prop_map(|(lookups, features)| GposCase { lookups, features })
+    let pair_class = (prop_oneof![1 => 4u16..40, 2 => 40u16..150], prop_oneof![1 => 4u16..40, 2 => 40u16..110], 1u8..4, 1u8..4, any::<bool>(), any::<u16>())
+        .prop_map(|(c1, c2, per1, per2, dense, seed)| LookupSpec::PairClass { c1, c2, per1, per2, dense, seed });
+    (proptest::collection::vec(prop_oneof![4 => pair, 3 => pair_class, 3 => mark, 2 => single], 1..6), 1u8..4).prop_map(|(lookups, features)| GposCase { lookups, features })
 }
 
 // =============================================================================================
@@ -1517,6 +1710,9 @@ fn main() {
     }
     if on("dag-mixed") {
         ctx.prop_stage("dag-mixed", Isolation::Procs, ctx.n(6_000, 40_000), || dag_strategy(Mode::Mixed), test_graph);
+    }
+    if on("dedup-adversarial") {
+        ctx.prop_stage("dedup-adversarial", Isolation::Procs, ctx.n(4_000, 40_000), adversarial_strategy, test_graph);
     }
     if on("gpos") {
         ctx.prop_stage("gpos", Isolation::Procs, ctx.n(600, 6_000), gpos_strategy, test_gpos);
